@@ -82,12 +82,13 @@ class Other:
 class Kw(object):
     """abstract **kwargs dictionary (mutable, copied at branches)"""
 
-    def __init__(self, d=None, optional=None):
+    def __init__(self, d=None, optional=None, table=False):
         self.d = dict(d or {})
         self.optional = set(optional or ())
+        self.table = table  # a dict literal (lookup table), not the command's keyword arguments
 
     def copy(self):
-        return Kw(self.d, self.optional)
+        return Kw(self.d, self.optional, self.table)
 
 
 def toks(L, part):
@@ -892,17 +893,7 @@ class ArrayInterp(Interp):
                 return env[e.id]
             r = self.idx.resolve(fr.module, e, fr.func)
             if r is not None and r[0] == "const":
-                try:
-                    v = self.idx.const(fr.module, e, fr.func)
-                    if isinstance(v, bool):
-                        return Other("bool", v)
-                    if isinstance(v, (int, float)):
-                        return Scal(dt=I_ if isinstance(v, int) else F_, const=v)
-                    if isinstance(v, str):
-                        return Other("str", v)
-                except KeyError:
-                    pass
-                return Other("opaque")
+                return self.ev_static(r[1], r[1].consts.get(r[2]), ("const", r[1].name, r[2]), single=self.idx._single_assignment(r[1], r[2]))
             qn = self.q(e, fr)
             if qn in ("builtins.float", "builtins.int", "builtins.bool"):
                 return Other("type", qn)
@@ -947,18 +938,7 @@ class ArrayInterp(Interp):
             vals = [self.ev(e.left, fr)] + [self.ev(c, fr) for c in e.comparators]
             arrs = [v for v in vals if isinstance(v, Arr)]
             if arrs and not any(isinstance(o, (ast.In, ast.NotIn, ast.Is, ast.IsNot)) for o in e.ops):
-                r = arrs[0]
-                for v in vals:
-                    if v is not r:
-                        r = self.binop_arr(r, v, ast.Add(), e, fr) if isinstance(r, Arr) else r
-                cmp = None
-                if len(vals) == 2 and isinstance(vals[0], Arr) and isinstance(vals[1], Scal) and scal_id(vals[1]) is not None:
-                    cmp = (vals[0].alias | vals[0].dataof, type(e.ops[0]).__name__, scal_id(vals[1]), vals[0].sel)
-                elif len(vals) == 2 and isinstance(vals[1], Arr) and isinstance(vals[0], Scal) and scal_id(vals[0]) is not None:
-                    flip = {"Gt": "Lt", "Lt": "Gt", "GtE": "LtE", "LtE": "GtE"}.get(type(e.ops[0]).__name__)
-                    if flip:
-                        cmp = (vals[1].alias | vals[1].dataof, flip, scal_id(vals[0]), vals[1].sel)
-                return replace(r, isbool=True, dt=B_, alias=self.S(e), rng=(None, None), cmp=cmp, maskof=E, dataof=E, sel=None)
+                return self.compare_arr(vals, type(e.ops[0]).__name__, e, fr)
             if any(isinstance(o, (ast.In, ast.NotIn)) for o in e.ops) and isinstance(vals[1], Kw) and isinstance(e.left, ast.Constant):
                 k = e.left.value
                 if k in vals[1].d and k not in vals[1].optional:
@@ -1013,7 +993,7 @@ class ArrayInterp(Interp):
         if isinstance(e, ast.Set):
             return Other("set")
         if isinstance(e, ast.Dict):
-            kw = Kw()
+            kw = Kw(table=True)
             for k, v in zip(e.keys, e.values):
                 if k is None:
                     o = self.ev(v, fr)
@@ -1043,6 +1023,61 @@ class ArrayInterp(Interp):
             self.assign(e.target, v, fr, e)
             return v
         self.unsupported("expression %s" % type(e).__name__, e, fr)
+
+    def switch_cases(self, sw, fr):
+        """iterate the cases of a table lookup, each evaluated under the synthetic condition `key == entry`"""
+        keynode, items = sw.info
+        self._switch_depth = getattr(self, "_switch_depth", 0)
+        pushed = False
+        for k, v in items:
+            if pushed:
+                self.cond_stack.pop()
+            test = ast.Compare(left=keynode, ops=[ast.Eq()], comparators=[ast.Constant(value=k)])
+            ast.copy_location(test, keynode)
+            ast.fix_missing_locations(test)
+            self.cond_stack.append((test, True, fr))
+            pushed = True
+            yield v
+        self._switch_pending = pushed
+
+    def cond_stack_pop_switch(self):
+        if getattr(self, "_switch_pending", False):
+            self.cond_stack.pop()
+            self._switch_pending = False
+
+    def compare_arr(self, vals, opname, e, fr):
+        """elementwise comparison with at least one array operand (`a > x`, operator.gt(a, x))"""
+        arrs = [v for v in vals if isinstance(v, Arr)]
+        r = arrs[0]
+        for v in vals:
+            if v is not r:
+                r = self.binop_arr(r, v, ast.Add(), e, fr) if isinstance(r, Arr) else r
+        cmp = None
+        if len(vals) == 2 and isinstance(vals[0], Arr) and isinstance(vals[1], Scal) and scal_id(vals[1]) is not None:
+            cmp = (vals[0].alias | vals[0].dataof, opname, scal_id(vals[1]), vals[0].sel)
+        elif len(vals) == 2 and isinstance(vals[1], Arr) and isinstance(vals[0], Scal) and scal_id(vals[0]) is not None:
+            flip = {"Gt": "Lt", "Lt": "Gt", "GtE": "LtE", "LtE": "GtE"}.get(opname)
+            if flip:
+                cmp = (vals[1].alias | vals[1].dataof, flip, scal_id(vals[0]), vals[1].sel)
+        return replace(r, isbool=True, dt=B_, alias=self.S(e), rng=(None, None), cmp=cmp, maskof=E, dataof=E, sel=None)
+
+    def ev_static(self, module, expr, key, single=True, cls=None):
+        """value of a module-level constant / class attribute: its initialiser evaluated in its defining scope"""
+        memo = self.__dict__.setdefault("_static_memo", {})
+        if key in memo:
+            return memo[key]
+        memo[key] = Other("opaque")  # cycles
+        out = Other("opaque")
+        if expr is not None and single:
+            if isinstance(expr, ast.Call) and isinstance(expr.func, ast.Name) and expr.func.id in ("staticmethod", "classmethod") and len(expr.args) == 1:
+                expr = expr.args[0]
+            sfr = Frame(module, None, cls, {}, depth=90)
+            try:
+                out = self.ev(expr, sfr)
+            except Unsupported:
+                out = Other("opaque")
+        memo[key] = out
+        return out
 
     # ---------------------------------------------------------------- comprehensions
     def ev_comp(self, e, fr):
@@ -1124,6 +1159,12 @@ class ArrayInterp(Interp):
                 m = self.idx.find_method(cls, a)
                 if m is not None:
                     return Other("selfmethod", (a, m))
+            # a class attribute of the command class being analysed (constant table, operator slot, ...)
+            c0, cexpr = self.idx.find_attr(self.decl.cls, a)
+            if c0 is not None and a not in ("inputs", "output", "is_fuzzy", "name", "display_name", "allow_extra_inputs"):
+                stores = [n for f in self.idx.funcs for n in ast.walk(f.node) if isinstance(n, ast.Attribute) and n.attr == a and isinstance(n.ctx, (ast.Store, ast.Del))]
+                if not stores:
+                    return self.ev_static(c0.module, cexpr, ("classattr", c0.qual, a), cls=c0)
             self.res.selfreads.append((e.lineno, a, e, self.fkey(fr)))
             return Other("opaque", "self." + a)
         if isinstance(base, Kw):
@@ -1131,6 +1172,11 @@ class ArrayInterp(Interp):
                 return Other("kwmethod", (base, a))
             self.unsupported("kwargs attribute %s" % a, e, fr)
         if isinstance(base, Other) and base.tag == "global":
+            r = self.idx.resolve(fr.module, e, fr.func) if fr.func is not None or fr.module is not None else None
+            if r is not None and r[0] == "classattr":
+                return self.ev_static(r[1].module, r[1].attrs[r[2]], ("classattr", r[1].qual, r[2]), cls=r[1])
+            if r is not None and r[0] == "const":
+                return self.ev_static(r[1], r[1].consts.get(r[2]), ("const", r[1].name, r[2]), single=self.idx._single_assignment(r[1], r[2]))
             qn = self.q(e, fr)
             return Other("global", qn or (str(base.info) + "." + a))
         if isinstance(base, Other) and base.tag == "dictobj" and a == "get":
@@ -1148,6 +1194,11 @@ class ArrayInterp(Interp):
     # ---------------------------------------------------------------- subscripts
     def ev_sub(self, e, fr):
         base = self.ev(e.value, fr)
+        if isinstance(base, Kw) and base.table and base.d and not isinstance(e.slice, ast.Constant):
+            kv = self.ev(e.slice, fr)
+            if not (isinstance(kv, Other) and kv.tag == "str" and isinstance(kv.info, str)):
+                # a lookup table indexed by a run-time key: one case per entry, each under the condition `key == entry`
+                return Other("switch", (e.slice, tuple(base.d.items())))
         if isinstance(base, Kw):
             k = self.const_key(e.slice, fr)
             self.res.kwreads.append((k, "[]", e, self.fkey(fr), None))
@@ -1156,6 +1207,13 @@ class ArrayInterp(Interp):
             self.finding("kwkey", e, "kwargs[%r] is read but `%s` is not a declared input of %s" % (k, k, self.decl.cls.name), fr)
             return Other("opaque")
         idx = self.ev(e.slice, fr)
+        if isinstance(idx, Other) and idx.tag == "switch" and isinstance(base, (Lst, Arr)):
+            out = None
+            for case in self.switch_cases(idx, fr):
+                v = self.sub_list(base, case, e, fr) if isinstance(base, Lst) else self.sub_arr(base, case, e, fr)
+                out = v if out is None else self.join(out, v)
+            self.cond_stack_pop_switch()
+            return out
         if isinstance(base, Lst):
             return self.sub_list(base, idx, e, fr)
         if isinstance(base, Arr):
@@ -1215,6 +1273,10 @@ class ArrayInterp(Interp):
             return Lst("mixed", items=(Scal(sym="raw", D=getattr(base.elem, "D", E), Pg=getattr(base.elem, "Pg", E)), Scal(sym="normal")))
         if base.what == "shape":
             return base if is_slice else Scal(dt=I_)
+        if base.what == "zip" and is_slice and base.zipped:
+            # a slice of a zip slices every zipped sequence alike
+            parts = tuple(self.sub_list(z, idx, e, fr) if isinstance(z, Lst) else z for z in base.zipped)
+            return replace(base, zipped=parts)
         if base.what in ("enum", "opaque", "zip", "range", "mixed"):
             return base if is_slice else self.elem_of(base, e, fr)
         self.unsupported("index into %r" % (base,), e, fr)
@@ -1423,6 +1485,20 @@ class ArrayInterp(Interp):
             if fv.tag == "lambda":
                 A, K = self.eval_args(e, fr)
                 return self.apply_lambda(fv.info, A, fr)
+            if fv.tag == "switch":
+                A, K = self.eval_args(e, fr)
+                outs = []
+                keys = [k for k, _ in fv.info[1]]
+                for case in self.switch_cases(fv, fr):
+                    if isinstance(case, Other) and case.tag == "lambda":
+                        outs.append(self.apply_lambda(case.info, A, fr))
+                    elif isinstance(case, Other) and case.tag == "global" and isinstance(case.info, str):
+                        outs.append(self.builtin(case.info, e, A, K, fr))
+                    else:
+                        self.cond_stack_pop_switch()
+                        self.unsupported("call of a table entry %r" % (case,), e, fr)
+                self.cond_stack_pop_switch()
+                return Other("switch", (fv.info[0], tuple(zip(keys, outs))))
             if fv.tag == "localdef":
                 self.eval_args(e, fr)
                 return Other("opaque")
@@ -1441,6 +1517,8 @@ class ArrayInterp(Interp):
                 if fv.tag == "ncds" or (fv.tag == "opaque" and fv.info in ("createVariable",)):
                     return Other("ncvar")
                 return Other("opaque")
+        if isinstance(fv, Other) and fv.tag == "global" and isinstance(fv.info, str) and qn is None:
+            qn = fv.info  # a callable held in a variable, table or class attribute (operator.sub, numpy.ma.minimum, ...)
         A, K = self.eval_args(e, fr)
         # package functions and classes
         r = self.idx.resolve(fr.module, f, fr.func) if isinstance(f, (ast.Name, ast.Attribute)) and not (isinstance(f, ast.Name) and f.id in fr.env) else None
@@ -1488,6 +1566,15 @@ class ArrayInterp(Interp):
             key = self.const_key(args[0], fr)
             dflt = self.ev(args[1], fr) if len(args) > 1 else Other("none")
             self.res.kwreads.append((key, meth, e, self.fkey(fr), args[1] if len(args) > 1 else None))
+            if meth == "setdefault":
+                # stores the default when the key is absent
+                if key not in base.d:
+                    base.d[key] = dflt
+                    return dflt
+                if key in base.optional:
+                    base.d[key] = self.join(base.d[key], dflt)
+                    base.optional.discard(key)
+                return base.d[key]
             if key in base.d:
                 v = base.d[key]
                 if meth == "pop":
@@ -1724,19 +1811,21 @@ class ArrayInterp(Interp):
         if qn.startswith("operator.") or qn.startswith("_operator."):
             nm = qn.split(".")[-1].strip("_")
             ops = {"add": ast.Add(), "iadd": ast.Add(), "sub": ast.Sub(), "isub": ast.Sub(), "mul": ast.Mult(), "imul": ast.Mult(), "truediv": ast.Div(), "itruediv": ast.Div(),
-                   "floordiv": ast.FloorDiv(), "mod": ast.Mod(), "pow": ast.Pow(), "and": ast.BitAnd(), "or": ast.BitOr(), "xor": ast.BitXor()}
+                   "floordiv": ast.FloorDiv(), "mod": ast.Mod(), "pow": ast.Pow(), "and": ast.BitAnd(), "or": ast.BitOr(), "xor": ast.BitXor(), "iand": ast.BitAnd(), "ior": ast.BitOr(), "ixor": ast.BitXor(),
+                   "ifloordiv": ast.FloorDiv(), "imod": ast.Mod(), "ipow": ast.Pow()}
             if nm in ops and len(A) == 2:
                 if isinstance(ops[nm], (ast.Div, ast.FloorDiv, ast.Mod)) and any(isinstance(x, Arr) for x in A):
                     self.res.divisions.append((e.lineno, A[0], A[1], e, self.fkey(fr)))
-                if nm.startswith("i") and nm != "invert" and isinstance(A[0], Arr):
+                if isinstance(A[0], Arr) and isinstance(A[1], Arr):
+                    self.res.binops.append((e, type(ops[nm]).__name__, A[0].D, A[1].D, self.fkey(fr)))
+                if nm.startswith("i") and nm not in ("invert", "inv", "is", "index") and isinstance(A[0], Arr):
                     self.write_site(A[0], e, "in-place operator.%s" % nm, fr)
                     return self.binop_arr(A[0], A[1], ops[nm], e, fr, inplace=True)
                 return self.binop(A[0], A[1], ops[nm], e, fr)
             if nm in ("neg", "pos", "abs") and A and isinstance(A[0], Arr):
                 return replace(A[0], alias=S(), rng=(None, None), maskof=E, dataof=E, cmp=None)
             if nm in ("lt", "le", "gt", "ge", "eq", "ne") and len(A) == 2 and any(isinstance(x, Arr) for x in A):
-                arr = A[0] if isinstance(A[0], Arr) else A[1]
-                return replace(arr, isbool=True, dt=B_, alias=S(), rng=(None, None), cmp=None, maskof=E, dataof=E)
+                return self.compare_arr(A, {"lt": "Lt", "le": "LtE", "gt": "Gt", "ge": "GtE", "eq": "Eq", "ne": "NotEq"}[nm], e, fr)
             return Other("opaque", qn)
         # ---- numpy / numpy.ma constructors and copies
         if qn == "numpy.copy":
@@ -2064,6 +2153,22 @@ class ArrayInterp(Interp):
             return Lst("zip", srcs=tuple(getattr(x, "srcs", ()) for x in A), zipped=tuple(A))
         if short == "enumerate":
             return Lst("enum", elem=a0)
+        if short == "slice":
+            none = lambda x: None if (x is None or isinstance(x, Other) and x.tag == "none") else x  # noqa: E731
+            if len(A) == 1:
+                return Other("slice", (None, none(A[0])))
+            if len(A) == 2 or (len(A) == 3 and none(A[2]) is None):
+                return Other("slice", (none(A[0]), none(A[1])))
+            return Other("slice", (Other("opaque"), Other("opaque")))
+        if qn == "itertools.islice" and isinstance(a0, Lst):
+            none = lambda x: None if (x is None or isinstance(x, Other) and x.tag == "none") else x  # noqa: E731
+            if len(A) == 2:
+                sl = Other("slice", (None, none(A[1])))
+            elif len(A) == 3 or (len(A) == 4 and none(A[3]) is None):
+                sl = Other("slice", (none(A[1]), none(A[2])))
+            else:
+                sl = Other("slice", (Other("opaque"), Other("opaque")))
+            return self.sub_list(a0, sl, e, fr)
         if short in ("list", "tuple", "iter", "reversed"):
             if a0 is None:
                 return Lst("mixed", items=())
